@@ -679,10 +679,19 @@ func (c *Ctx) Select(arr, idx *Term) *Term {
 				a = a.Args[0]
 				continue
 			}
-			if a.Args[1].Op == "const" && idx.Op == "const" && strings.HasPrefix(a.Args[1].Name, "new!") && strings.HasPrefix(idx.Name, "new!") {
-				// distinct fresh allocations
-				a = a.Args[0]
-				continue
+			if a.Args[1].Op == "const" && idx.Op == "const" && a.Args[1].Sort == RefSort {
+				n1, n2 := a.Args[1].Name, idx.Name
+				f1, f2 := strings.HasPrefix(n1, "new!"), strings.HasPrefix(n2, "new!")
+				if f1 && f2 {
+					// distinct fresh allocations
+					a = a.Args[0]
+					continue
+				}
+				if (f1 && strings.HasPrefix(n2, "in.")) || (f2 && strings.HasPrefix(n1, "in.")) {
+					// an allocation made during the execution is distinct from a reference passed in
+					a = a.Args[0]
+					continue
+				}
 			}
 		}
 		if a.Op == "constarr" {
